@@ -209,6 +209,9 @@ def _count(res, cases):
 
 
 def run(tier):
+    # self-test: HV_MUTANT=6 swaps in the mutated cluster-to-cluster broadcast_closed; run it as
+    #   HV_MUTANT=6 VERIF_SEED=99 ./check C35     (another seed, so the result cache of the
+    # normal run is not polluted: the driver's cache key does not know HV_MUTANT)
     res = vlib.PropResult("C35")
     thorough = tier == "thorough"
     bindir = _build("hv_net")
@@ -252,7 +255,7 @@ def run(tier):
 
     # (3) seeded random larger rounds
     rtrace = os.path.join(d, "random_trace.ndjson")
-    summ = _run_harness(exe, ["random", 1500 if thorough else 150, 8 if thorough else 6, rtrace, topos])
+    summ = _run_harness(exe, ["random", 1000 if thorough else 150, 8 if thorough else 6, rtrace, topos])
     viol = _validate(rtrace, res, "random")
     rcases = _report(res, rtrace, viol, "random")
     _count(res, rcases)
